@@ -99,6 +99,13 @@ func (w *World) VerifyFunc(key string) (vc *VC, err error) {
 		free = append(free, fr.freshParam(smtName(p.Name()), p.Type(), st))
 	}
 	fr.params = args
+	fr.vals = map[ssa.Value]*Val{}
+	for i, fv := range fn.FreeVars {
+		fr.vals[fv] = free[i]
+		if free[i].T != nil && isPtrLike(fv.Type()) {
+			vc.assume(True, Not(Eq(free[i].T, IntLit(0)))) // a captured variable's cell
+		}
+	}
 	fname := relName(fn)
 	// thin default contract: pointer parameters are non-nil unless the body
 	// itself tests them against nil; data invariants of parameter types hold
